@@ -83,3 +83,96 @@ Lemma sweep_unfold f limit name body s pos ch :
               else sweep f limit name body s' (p + List.length body) true
   end.
 Proof. reflexivity. Qed.
+
+(* ------------------------------------------------------------------ the result is fully expanded *)
+(* [occurs name s]: the text still holds a whole-word occurrence of [name] outside its string literals
+   (what the inner loop would replace next) *)
+Definition occurs (name s : str) : bool :=
+  match search (S (List.length s)) name s (string_ranges s) 0 with Some _ => true | None => false end.
+Definition fully_expanded (t : table) (s : str) : Prop :=
+  forall m, In m t -> mfn m = false -> mname m <> [] -> occurs (mname m) s = false.
+
+(* the sweep reports "unchanged" only if it really replaced nothing and nothing was left to replace *)
+Lemma sweep_unchanged f limit name body : forall s pos ch s',
+  sweep f limit name body s pos ch = SGo s' false ->
+  ch = false /\ s' = s /\ (f = 0 \/ search (S (List.length s)) name s (string_ranges s) pos = None).
+Proof.
+  induction f as [|f IH]; intros s pos ch s' H.
+  - cbn [sweep] in H. injection H as <- <-. auto.
+  - rewrite sweep_unfold in H.
+    destruct (search (S (List.length s)) name s (string_ranges s) pos) as [p|] eqn:E.
+    + cbn zeta in H. destruct (too_large limit (replace_at s p (List.length name) body)); [discriminate H|].
+      apply IH in H. destruct H as [H _]. discriminate H.
+    + injection H as <- <-. auto.
+Qed.
+
+Lemma pass_unchanged limit t : forall s ch s',
+  pass limit t s ch = SGo s' false -> ch = false /\ s' = s /\ fully_expanded t s.
+Proof.
+  induction t as [|m r IH]; intros s ch s' H; cbn [pass] in H.
+  - injection H as <- <-. repeat split. intros m [].
+  - destruct (mfn m) eqn:Fn.
+    + apply IH in H as (H1 & H2 & H3). repeat split; auto.
+      intros x [<-|Hx] Fx Nx; [congruence|]. apply H3; assumption.
+    + destruct (mname m) as [|c nm] eqn:Nm.
+      * apply IH in H as (H1 & H2 & H3). repeat split; auto.
+        intros x [<-|Hx] Fx Nx; [congruence|]. apply H3; assumption.
+      * rewrite <- Nm in H.
+        destruct (sweep (S (List.length s)) limit (mname m) (mbody m) s 0 ch) as [s1 ch1|s1] eqn:Sw; [|discriminate H].
+        apply IH in H as (H1 & H2 & H3). subst ch1 s'.
+        apply sweep_unchanged in Sw as (Hc & Hs & Hn). subst s1.
+        destruct Hn as [Hn|Hn]; [discriminate Hn|].
+        repeat split; auto.
+        intros x [<-|Hx] Fx Nx.
+        -- unfold occurs. rewrite Hn. reflexivity.
+        -- apply H3; assumption.
+Qed.
+
+(* did the pass loop stop because a whole pass changed nothing (and not because it ran out of passes)? *)
+Fixpoint converged (n : nat) (limit : N) (t : table) (s : str) : bool :=
+  match n with
+  | 0 => false
+  | S n' => match pass limit t s false with
+            | SGo s' ch => if ch then converged n' limit t s' else true
+            | SOver _ => false
+            end
+  end.
+
+Lemma passes_fully_expanded n limit t : forall s s' over,
+  passes n limit t s = (s', over) -> converged n limit t s = true -> over = false /\ fully_expanded t s'.
+Proof.
+  induction n as [|n IH]; intros s s' over H C; cbn [passes converged] in *; [discriminate C|].
+  destruct (pass limit t s false) as [s1 ch|s1] eqn:P; [|discriminate C].
+  destruct ch.
+  - eapply IH; eassumption.
+  - injection H as <- <-. apply pass_unchanged in P as (_ & -> & F). auto.
+Qed.
+
+(* the only other ways the loop ends: the growth limit (reported as an error) or all [n] passes changed the text *)
+Fixpoint cap_hit (n : nat) (limit : N) (t : table) (s : str) : bool :=
+  match n with
+  | 0 => true
+  | S n' => match pass limit t s false with
+            | SGo s' ch => ch && cap_hit n' limit t s'
+            | SOver _ => false
+            end
+  end.
+
+Lemma passes_outcomes n limit t : forall s s' over,
+  passes n limit t s = (s', over) ->
+  over = true \/ converged n limit t s = true \/ cap_hit n limit t s = true.
+Proof.
+  induction n as [|n IH]; intros s s' over H; cbn [passes converged cap_hit] in *.
+  - right; right; reflexivity.
+  - destruct (pass limit t s false) as [s1 ch|s1] eqn:P.
+    + destruct ch; cbn [andb].
+      * eapply IH; exact H.
+      * right; left; reflexivity.
+    + injection H as <- <-. left; reflexivity.
+Qed.
+
+Lemma expand_fully_expanded_l t line s' over :
+  expand t line = (s', over) ->
+  converged max_iterations (N.of_nat (List.length line) + max_growth)%N t line = true ->
+  over = false /\ fully_expanded t s'.
+Proof. unfold expand. apply passes_fully_expanded. Qed.
